@@ -121,7 +121,7 @@ pub fn run(dir: PathBuf, clock: Option<u64>, gate_gc: bool, http: bool, serve: b
     let mut out = stdout.lock();
     println!("{}", ready);
     let mut nth: u64 = 0;
-    let mut follow_conn: Option<std::os::unix::net::UnixStream> = None;
+    let mut follow_conn: Option<(std::os::unix::net::UnixStream, Vec<u8>)> = None;
     for line in stdin.lock().lines() {
         let line = line.unwrap();
         if line.trim().is_empty() {
@@ -138,8 +138,22 @@ pub fn run(dir: PathBuf, clock: Option<u64>, gate_gc: bool, http: bool, serve: b
             let mut resp = json!({"status": -1});
             if let Ok(mut c) = std::os::unix::net::UnixStream::connect(&sock) {
                 let _ = c.write_all(format!("GET {target} HTTP/1.1\r\nHost: localhost\r\n\r\n").as_bytes());
-                let _ = c.set_read_timeout(Some(Duration::from_millis(300)));
-                follow_conn = Some(c);
+                // The response head is written after `Store::read` returned, i.e. after the subscription exists: wait
+                // for it (not for some milliseconds), so that what the parent appends next is live traffic.
+                use std::io::Read as _;
+                let _ = c.set_read_timeout(Some(Duration::from_millis(200)));
+                let cap = std::time::Instant::now() + Duration::from_secs(10);
+                let mut pre = vec![];
+                let mut chunk = [0u8; 4096];
+                while !pre.windows(4).any(|w| w == b"\r\n\r\n") && std::time::Instant::now() < cap {
+                    match c.read(&mut chunk) {
+                        Ok(0) => break,
+                        Ok(n) => pre.extend_from_slice(&chunk[..n]),
+                        Err(e) if matches!(e.kind(), std::io::ErrorKind::WouldBlock | std::io::ErrorKind::TimedOut) => {}
+                        Err(_) => break,
+                    }
+                }
+                follow_conn = Some((c, pre));
                 resp = json!({"status": 0});
             }
             writeln!(out, "{}", resp).unwrap();
@@ -149,19 +163,53 @@ pub fn run(dir: PathBuf, clock: Option<u64>, gate_gc: bool, http: bool, serve: b
         if http && op == "follow_collect" {
             use std::io::Read as _;
             let mut buf = vec![];
-            if let Some(mut c) = follow_conn.take() {
+            if let Some((mut c, pre)) = follow_conn.take() {
+                buf = pre;
                 let wait = Duration::from_millis(req["wait_ms"].as_u64().unwrap_or(150));
                 let _ = c.set_read_timeout(Some(wait));
                 let mut chunk = [0u8; 65536];
-                // until the stream ends, is idle for `wait`, or - a heartbeat never lets it go idle - 600 ms passed
-                let deadline = std::time::Instant::now() + Duration::from_millis(600);
+                // What the runner expects to arrive (ids of the frames it appended into the stream's scope, number of
+                // data frames of a limited stream): absence is concluded only after `cap_ms`, never from a short pause,
+                // so a loaded machine cannot turn into a "missing frame". Once everything expected is there (or
+                // nothing was expected) the stream is read for one more `wait` - a heartbeat never lets it go idle -
+                // to see what else comes.
+                let want_ids: Vec<String> = req["want_ids"]
+                    .as_array()
+                    .map(|a| a.iter().filter_map(|v| v.as_str().map(|s| format!("\"id\":\"{s}\""))).collect())
+                    .unwrap_or_default();
+                let want_count = req["want_count"].as_u64().unwrap_or(0) as usize;
+                let cap = std::time::Instant::now() + Duration::from_millis(req["cap_ms"].as_u64().unwrap_or(10_000));
+                let mut grace: Option<std::time::Instant> = None;
+                let satisfied = |buf: &[u8]| {
+                    let text = String::from_utf8_lossy(buf);
+                    let body = text.find("\r\n\r\n").map(|p| &text[p + 4..]).unwrap_or("");
+                    let data = body
+                        .lines()
+                        .filter(|l| {
+                            let l = l.trim();
+                            l.starts_with('{') && l.ends_with('}') && !l.contains("\"xs.pulse\"") && !l.contains("\"xs.threshold\"")
+                        })
+                        .count();
+                    data >= want_count && want_ids.iter().all(|w| body.contains(w.as_str()))
+                };
                 loop {
+                    let mut idle = false;
                     match c.read(&mut chunk) {
                         Ok(0) => break,
                         Ok(n) => buf.extend_from_slice(&chunk[..n]),
-                        Err(_) => break, // idle for `wait`
+                        Err(e) if matches!(e.kind(), std::io::ErrorKind::WouldBlock | std::io::ErrorKind::TimedOut) => idle = true,
+                        Err(_) => break,
                     }
-                    if std::time::Instant::now() > deadline || buf.len() > 4_000_000 {
+                    let now = std::time::Instant::now();
+                    if grace.is_none() && satisfied(&buf) {
+                        grace = Some(now + wait);
+                    }
+                    match grace {
+                        Some(g) if idle || now > g => break,
+                        None if now > cap => break,
+                        _ => {}
+                    }
+                    if buf.len() > 4_000_000 {
                         break;
                     }
                 }
